@@ -469,6 +469,12 @@ func (g *peGen) block(stmts []ast.Stmt, ind string) (string, error) {
 		if x.Init != nil || x.Else != nil {
 			return "", fmt.Errorf("processError: if with init/else")
 		}
+		// `if s.retryState != nil { s.retryState.reset() }`: a held retry slot is released before the state is dropped
+		if types.ExprString(x.Cond) == "s.retryState != nil" && len(x.Body.List) == 1 {
+			if es, ok := x.Body.List[0].(*ast.ExprStmt); ok && exprKey(es.X) == "s.retryState.reset()" {
+				return next("let s : σ := o.releaseRetry s")
+			}
+		}
 		var c string
 		if types.ExprString(x.Cond) == "sid != id" {
 			c = "idMismatch"
@@ -888,7 +894,7 @@ func genFilterPhase() (string, error) {
 		return "", err
 	}
 	s += "/-- the reads and writes of downStream.processError on the stream state `σ` -/\n"
-	s += "structure Ops (σ : Type) where\n  cleaned : σ → Bool\n  upstreamReset : σ → Bool\n  downstreamReset : σ → Bool\n  directResponse : σ → Bool\n  oneway : σ → Bool\n  curPhase : σ → Nat\n  upstreamProcessDone : σ → Bool\n  setupRetry : σ → Bool\n  again : σ → Nat\n  setDirectResponse : σ → Bool → σ\n  clearRetryState : σ → σ\n  setAgain : σ → Nat → σ\n  setSetupRetry : σ → Bool → σ\n  onUpstreamReset : σ → σ\n  resetStream : σ → σ\n  markDirectResponse : σ → σ\n\n"
+	s += "structure Ops (σ : Type) where\n  cleaned : σ → Bool\n  upstreamReset : σ → Bool\n  downstreamReset : σ → Bool\n  directResponse : σ → Bool\n  oneway : σ → Bool\n  curPhase : σ → Nat\n  upstreamProcessDone : σ → Bool\n  setupRetry : σ → Bool\n  again : σ → Nat\n  setDirectResponse : σ → Bool → σ\n  clearRetryState : σ → σ\n  releaseRetry : σ → σ\n  setAgain : σ → Nat → σ\n  setSetupRetry : σ → Bool → σ\n  onUpstreamReset : σ → σ\n  resetStream : σ → σ\n  markDirectResponse : σ → σ\n\n"
 	s += "/-- downStream.processError, statement by statement: (phase, err != nil, state) -/\n"
 	s += "def processError {σ : Type} (o : Ops σ) (idMismatch : Bool) (s : σ) : Nat × Bool × σ :=\n  let phase : Nat := 0\n  let err : Bool := false\n  " + body + "\n"
 	s += footer("FilterPhase")
